@@ -250,6 +250,8 @@ def run(ctx):
             continue
         j_ = rng.randrange(k)
         up = ovs[2][:j_] + "N" + ovs[2][j_ + 1:]
+        if gen.rc(up) in (up, ovs[0], ovs[1]) or up in (ovs[0], ovs[1]):
+            continue        # a closing overhang that pairs with itself or with a module start is the recorded finding F11
         try:
             vw, vd = gen.gen_vector(rng, enz, o5=ovs[0], o3=up, tries=200)
             m1, _ = gen.gen_module(rng, enz, ovs[0], ovs[1], tries=200)
